@@ -116,3 +116,13 @@ Lemma sign_without_final_reset_refuted :
   let s' := fst (crun (fun b => b) (c_init sample_tx) [OReset; OReadId; OEdit sample_tx2]) in
   fst (read_raw s') <> serialize (c_cur s').
 Proof. vm_compute. discriminate. Qed.
+
+(* the old Transaction._add: when the iterable raises midway the items already appended change the
+   fields but no reset happens -- an edit without a reset after a read: the next read is stale.
+   (The model's OAdd is the repaired behaviour: fields change, then reset.) *)
+Lemma partial_add_without_reset_refuted :
+  let s' := fst (crun (fun b => b) (c_init sample_tx) [OReadRaw; OEdit sample_tx2]) in
+  fst (read_raw s') <> serialize (c_cur s') /\
+  let s'' := fst (crun (fun b => b) (c_init sample_tx) [OReadRaw; OAdd sample_tx2]) in
+  fst (read_raw s'') = serialize (c_cur s'').
+Proof. split; vm_compute; [discriminate | reflexivity]. Qed.
